@@ -248,7 +248,7 @@ theorem valid_elemsJ : ∀ (r : List SCall) (Z : Bytes), (∀ e ∈ r, e.scal.Va
     JValidVs (elemsJ r) ([10] ++ Z)
   | [], _, _ => trivial
   | e :: r, Z, h => by
-    refine ⟨⟨Writer.blank_sp, h e (by simp), fun _ => ?_⟩, valid_elemsJ r Z (fun x hx => h x (by simp [hx]))⟩
+    refine ⟨⟨Writer.blank_sp, Or.inl (h e (by simp)), fun _ => ?_⟩, valid_elemsJ r Z (fun x hx => h x (by simp [hx]))⟩
     rw [jrenderVs_elemsJ]
     exact startsBoundary_elems r Z
 
@@ -257,11 +257,11 @@ theorem valid_vlayout (c : UInt8) (f : Nat) (hc : isBlank c = true) (g : Bytes) 
     (ha : ∀ u first rest, v = .arr u first rest → first.scal.Valid ∧ ∀ e ∈ rest, e.scal.Valid)
     (after : Bytes) (hafter : StartsBoundary after) : JValidV (vlayout c f g v) after := by
   cases v with
-  | scal s => exact ⟨hg, hv s rfl, fun _ => hafter⟩
+  | scal s => exact ⟨hg, Or.inl (hv s rfl), fun _ => hafter⟩
   | empty fl => exact ⟨hg, Writer.blank_sp⟩
   | arr u first rest =>
     obtain ⟨hf, hr⟩ := ha u first rest rfl
-    refine ⟨hg, blank_nl_ind c hc f 1, Writer.blank_nl, hf, fun _ => ?_, ?_, valid_elemsJ rest _ hr⟩
+    refine ⟨hg, blank_nl_ind c hc f 1, Writer.blank_nl, Or.inl hf, fun _ => ?_, ?_, valid_elemsJ rest _ hr⟩
     · rw [jrenderVs_elemsJ]; exact startsBoundary_elems rest _
     · intro d2 hd2
       rw [jrenderVs_elemsJ] at hd2
@@ -297,7 +297,7 @@ theorem valid_alayout (c : UInt8) (f : Nat) (hc : isBlank c = true) : ∀ (fs : 
   | [], _, _ => trivial
   | x :: r, first, h => by
     obtain ⟨hk, hs, ha⟩ := h x (by simp)
-    refine ⟨?_, blank_gapOf _, hk, fun _ => ?_, ?_, valid_alayout c f hc r false (fun y hy => h y (by simp [hy]))⟩
+    refine ⟨?_, blank_gapOf _, Or.inl hk, fun _ => ?_, ?_, valid_alayout c f hc r false (fun y hy => h y (by simp [hy]))⟩
     · split
       · exact .nil
       · exact Writer.blank_nl
